@@ -238,7 +238,7 @@ func runC04(r *core.Run) {
 	if th {
 		level = 1
 	}
-	r.Rule = "for each base .xz stream (library- and reference-written; 1-3 blocks; CRC32/CRC64/SHA-256/none; size fields; all chunk kinds): every single-bit flip; bursts at every start bit x lengths x {invert,set0,set1,alternate}; deletion of every byte; insertion at every offset of {00,FF,neighbour}; and every field-level edit of the structural mutator (sizes ±1/x2/added wrong, record count, record fields, backward size, header vs footer flags, paddings, reserved bits, unsupported check/filter ids, dictionary byte, check value) with all CRC32s re-sealed; and every single-bit flip of every CRC32-protected metadata byte (stream header flags, block headers, index, footer fields) with that CRC32 re-sealed. non-trivial = distinct (stream, outcome class, bytes delivered)"
+	r.Rule = "for each base .xz stream (library- and reference-written; 1-3 blocks; CRC32/CRC64/SHA-256/none; size fields; all chunk kinds): every single-bit flip; bursts at every start bit x lengths x {invert,set0,set1,alternate}; deletion of every byte and of every suffix; insertion at every offset of {00,FF,neighbour}; and every field-level edit of the structural mutator (sizes ±1/x2/added wrong, record count, record fields, backward size, header vs footer flags, paddings, reserved bits, unsupported check/filter ids, dictionary byte, check value) with all CRC32s re-sealed; and every single-bit flip of every CRC32-protected metadata byte (stream header flags, block headers, index, footer fields) with that CRC32 re-sealed. non-trivial = distinct (stream, outcome class, bytes delivered)"
 	streams := c04Streams(level)
 	type job struct {
 		s  Stream
@@ -274,6 +274,10 @@ func runC04(r *core.Run) {
 				for pat := 0; pat < 3; pat++ {
 					jobs = append(jobs, job{s: s, m: &ByteMut{Kind: "ins", Pos: k, Pat: pat}, sm: sm})
 				}
+			}
+			// deletion of every suffix (the file ends early)
+			for k := 0; k < len(s.Data); k++ {
+				jobs = append(jobs, job{s: s, m: &ByteMut{Kind: "trunc", Pos: k}, sm: sm})
 			}
 		}
 		for _, reg := range sealRegions(s.Data) {
